@@ -155,7 +155,7 @@ CLAIMED = {
              "database is complete for every earlier version and the raw-level reader started at the root of version i returns "
              "the contents of that moment for every key (history_complete_for_all_versions, history_old_roots_readable), no binding "
              "of any intermediate database was removed or altered (history_preserves_every_binding). SEVERAL TRIES OVER ONE DATABASE (Props/C04Shared.lean): for every interleaved history of new non-pruning tries, tries opened at earlier roots (HexaryTrie(db, root) / at_root) and set/delete calls addressed to any of them, each call returns normally, changes only its own trie (to the tree-level result), preserves every binding (C04.shared_step), and at the end the database is complete for every trie and every root any trie ever had: the raw-level reader returns each trie's own contents and each old root's contents (shared_history, shared_history_reads, shared_root_recorded; concrete three-trie history in NonVacuity10). Tie: exact db after every "
-             "step, every old root re-read through a fresh trie and at_root, reads via the Lean Layer-D reader on the model's own db.",
+             "step, every old root re-read through a fresh trie and at_root, reads via the Lean Layer-D reader on the model's own db. DIRECT CALLS CUT SHORT BY A REFUSED WRITE over whole histories (Props/HistoryFailOp.lean): such a call leaves tries and counts as before and loses no binding (what it wrote before the refusal stays as unreachable entries), the between-steps invariant holds again (Free.fail_op_step); along whole histories of direct calls, blocks, failing commits and failing direct writes the tree-free and tree-carrying worlds agree call by call, the trie is the tree of the calls that count and get returns the map model (history_fail_op_world / _lockstep / _get; NonVacuity15).",
         technique="Lean 4 proof (invariants of the world executor, any fault position) + correspondence check with fault injection",
         design_ref="6/C04"),
     "C11": dict(
